@@ -208,7 +208,7 @@ def units(tier, seed):
     out = []
     # group tracer cases so that cases sharing compiled programs stay together:
     # same (schedule, chunk, chains, nk, nq) -> same XLA programs
-    size = 14 if tier == "quick" else 40
+    size = 8 if tier == "quick" else 40
     tc_sorted = sorted(range(len(tc)), key=lambda i: (tc[i]["chains"], tc[i]["nk"], tc[i]["nq"], tc[i]["chunk"], i))
     first = [tc[i] for i in tc_sorted]
     for u in range(0, len(first), size):
